@@ -14,7 +14,8 @@ if os.environ.get("VERIF_DEBUGLOG"):
     # and lazily evaluated log arguments now run); the records themselves are thrown away
     import logging
 
-    logging.basicConfig(level=logging.DEBUG, stream=open(os.devnull, "w"))
+    logging.basicConfig(level=logging.DEBUG, stream=open(os.devnull, "w"), force=True)
+    logging.getLogger().setLevel(logging.DEBUG)
 
 from mc import kernel
 
